@@ -384,6 +384,86 @@ def one_sided(cur, ref):
     return co, ro, {c: v for c, v in cmeth.items() if v}, {c: v for c, v in rmeth.items() if v}
 
 
+def _module_constants(cur, ref):
+    """R34: module-level names the reviewed module does not have, bound once to a literal or to struct.Struct(<literal>),
+    are replaced by their value throughout the current tree (in place).  Returns the ids of the function nodes touched."""
+    import struct as _struct
+    refnames = set()
+    for n in ref.body:
+        if isinstance(n, ast.Assign):
+            refnames |= {t.id for t in n.targets if isinstance(t, ast.Name)}
+        elif isinstance(n, (ast.FunctionDef, ast.ClassDef)):
+            refnames.add(n.name)
+    binds = {}
+    for n in cur.body:
+        if isinstance(n, ast.Assign) and len(n.targets) == 1 and isinstance(n.targets[0], ast.Name):
+            binds.setdefault(n.targets[0].id, []).append(n.value)
+    stores = {}
+    for n in ast.walk(cur):
+        if isinstance(n, ast.Name) and isinstance(n.ctx, (ast.Store, ast.Del)):
+            stores[n.id] = stores.get(n.id, 0) + 1
+        elif isinstance(n, ast.Global):
+            for nm in n.names:
+                stores[nm] = stores.get(nm, 0) + 10
+    lits, structs = {}, {}
+    for k, vs in binds.items():
+        if k in refnames or len(vs) != 1 or stores.get(k, 0) != 1 or k.startswith('__'):
+            continue
+        v = vs[0]
+        if isinstance(v, ast.Constant) and isinstance(v.value, (int, float, str, bytes)) and not isinstance(v.value, bool):
+            lits[k] = v
+        elif isinstance(v, ast.Call) and isinstance(v.func, ast.Attribute) and v.func.attr == 'Struct' and isinstance(v.func.value, ast.Name) \
+                and v.func.value.id == 'struct' and len(v.args) == 1 and isinstance(v.args[0], ast.Constant) and isinstance(v.args[0].value, str):
+            try:
+                _struct.calcsize(v.args[0].value)
+                structs[k] = v.args[0].value
+            except _struct.error:
+                pass
+    if not lits and not structs:
+        return set()
+    touched = set()
+
+    class _T(ast.NodeTransformer):
+        def __init__(self):
+            self.fn = []
+
+        def visit_FunctionDef(self, n):
+            self.fn.append(n)
+            self.generic_visit(n)
+            self.fn.pop()
+            return n
+
+        def mark(self):
+            for f in self.fn:
+                touched.add(id(f))
+
+        def visit_Call(self, n):
+            self.generic_visit(n)
+            f = n.func
+            if isinstance(f, ast.Attribute) and isinstance(f.value, ast.Name) and f.value.id in structs and f.attr in ('pack', 'unpack', 'unpack_from', 'pack_into'):
+                self.mark()
+                return ast.Call(func=ast.Attribute(value=ast.Name(id='struct', ctx=ast.Load()), attr=f.attr, ctx=ast.Load()),
+                                args=[ast.Constant(structs[f.value.id])] + n.args, keywords=n.keywords)
+            return n
+
+        def visit_Attribute(self, n):
+            self.generic_visit(n)
+            if isinstance(n.value, ast.Name) and n.value.id in structs and n.attr == 'size' and isinstance(n.ctx, ast.Load):
+                self.mark()
+                return ast.Constant(_struct.calcsize(structs[n.value.id]))
+            return n
+
+        def visit_Name(self, n):
+            if isinstance(n.ctx, ast.Load) and n.id in lits and self.fn:
+                # not when the function rebinds the name locally
+                if not any(isinstance(x, ast.Name) and x.id == n.id and isinstance(x.ctx, ast.Store) for x in ast.walk(self.fn[-1])):
+                    self.mark()
+                    return ast.Constant(lits[n.id].value)
+            return n
+    _T().visit(cur)
+    return touched
+
+
 def splice_equivalent(rel, text):
     """Returns (text', splices) with splices = [(qualname, canon_lo, canon_hi, orig_lo, orig_hi)] (1-based, inclusive)."""
     ref_path = os.path.join(REFDIR, rel.replace('/', '__'))
@@ -400,6 +480,7 @@ def splice_equivalent(rel, text):
     from . import normform
     cf, rf = _functions(cur), _functions(ref)
     co, ro, cmeth, rmeth = one_sided(cur, ref)
+    touched = _module_constants(cur, ref)
     done = []
     plan = []          # (qualname, cur fn, replacement lines)
     rlines = ref_text.split('\n')
@@ -413,9 +494,12 @@ def splice_equivalent(rel, text):
             continue
         a, b = cf[q], rf[q]
         la, lb = seg(a), seg(b)
-        if clines[la[0] - 1:la[1]] == rlines[lb[0] - 1:lb[1]]:
+        if clines[la[0] - 1:la[1]] == rlines[lb[0] - 1:lb[1]] and id(a) not in touched:
             continue
         if ast.dump(a) == ast.dump(b):
+            if id(a) in touched:
+                done.append(q)
+                plan.append((q, a, rlines[lb[0] - 1:lb[1]]))
             continue
         try:
             cls = q.rsplit('.', 1)[0] if '.' in q else None
@@ -434,6 +518,8 @@ def splice_equivalent(rel, text):
             out, _ = normform.toward_reviewed(a, b, cfun)
         except Exception:
             out = None
+        if out is None and id(a) in touched:
+            out = a          # only the module-constant rewrite (R34) applies: analyse the rewritten function
         if out is not None:
             try:
                 ast.fix_missing_locations(out)
